@@ -103,6 +103,11 @@ type Interp struct {
 	// OnCall observes calls; a non-empty string is appended to the path trace.
 	// If results != nil they replace the default (unknown) results.
 	OnCall func(call *ast.CallExpr, args []IVal) (event string, results []IVal)
+	// OnStore observes element stores `x[i] = v` (after the bounds check).
+	OnStore func(lhs *ast.IndexExpr, idx, val IVal, tainted bool)
+	// Override fixes the value of expression nodes (used to replay a loop
+	// body for a chosen counter value).
+	Override map[ast.Expr]IVal
 	// Stop ends a path when the node is about to be executed.
 	Stop     func(n ast.Node) bool
 	MaxSteps int
@@ -357,6 +362,11 @@ func (ip *Interp) decide(st *istate, v IVal) []condOut {
 }
 
 func (ip *Interp) cond(st *istate, e ast.Expr) []condOut {
+	if ip.Override != nil {
+		if v, ok := ip.Override[e]; ok {
+			return ip.decide(st, v)
+		}
+	}
 	e = ast.Unparen(e)
 	switch x := e.(type) {
 	case *ast.UnaryExpr:
@@ -590,6 +600,9 @@ func (ip *Interp) store(st *istate, lhs ast.Expr, v IVal) {
 	}
 	if ix, ok := lhs.(*ast.IndexExpr); ok {
 		ip.eval(st, ix) // bounds check
+		if ip.OnStore != nil {
+			ip.OnStore(ix, ip.eval(st, ix.Index), v, st.tainted)
+		}
 		return
 	}
 	key, _, ok := ip.lvalue(st, lhs)
@@ -856,7 +869,17 @@ func b2i(b bool) int64 {
 
 func (ip *Interp) eval(st *istate, e ast.Expr) IVal {
 	info := ip.info
+	if ip.Override != nil {
+		if v, ok := ip.Override[e]; ok {
+			return v
+		}
+	}
 	e = ast.Unparen(e)
+	if ip.Override != nil {
+		if v, ok := ip.Override[e]; ok {
+			return v
+		}
+	}
 	if tv, ok := info.Types[e]; ok && tv.Value != nil {
 		switch tv.Value.Kind() {
 		case constant.Bool:
@@ -982,6 +1005,12 @@ func (ip *Interp) eval(st *istate, e ast.Expr) IVal {
 		}
 		if idx.K == 'i' && idx.I < 0 {
 			panic(crashErr{x, fmt.Sprintf("index out of range [%d]", idx.I)})
+		}
+		// element of a constant package-level table
+		if idx.K == 'i' {
+			if tab := ip.bnd.constTable(x.X); tab != nil {
+				return IVal{K: 'i', I: tab.M[idx.I], Typ: basicInt(info.TypeOf(x))}
+			}
 		}
 		// element value
 		if base.Env && ip.Input != nil && idx.K == 'i' {
